@@ -278,7 +278,7 @@ func evalCase(c *vlib.Ctx, k kase, n int) {
 	capMu.Unlock()
 	x := model(k)
 	w := k.witness()
-	outcome := fmt.Sprintf("%s/%s/out:%s/err:%s", producers[k.prod].name, k.pos, tokName(outTokens[k.r.so]), tokName(errTokens[k.r.se]))
+	outcome := fmt.Sprintf("%s/out:%s/err:%s", k.pos, tokName(outTokens[k.r.so]), tokName(errTokens[k.r.se]))
 	nontrivial := !k.r.trivial() || k.pos[0] == 'F' || k.pos[0] == 'A'
 	defer func() { c.Eval(nontrivial, outcome) }()
 	if n%211 == 1 {
